@@ -142,7 +142,7 @@ def run(tier, replay=None):
                                  "program": it["src0"], "emitted": it["text"]["READ_STATEMENTS"]})
     # ---- semantic check of the modelled parts
     sem_items = [it for it in acc if "ast" in it]
-    nstates = 16 if tier == "quick" else 48
+    nstates = 24 if tier == "quick" else 64
     reqs = semcheck.sem_requests(sem_items, nstates, seed() + 1, csubs=semprops.CSUBS)
     out = drv.run(pre + [r for _, r in reqs])[len(pre):]
     known_ids = {k["id"]: k for k in known_for("C01") if k.get("scope") == "generated"}
